@@ -501,6 +501,6 @@ func runC14(c *fw.Ctx) {
 	if err := ecref.SelfTest(); err != nil {
 		fw.Bug("ecref self-test: %v", err)
 	}
-	n := c.Pick(120, 1500)
+	n := c.Pick(120, 6000)
 	c.Cases(n, func(i int) string { return fmt.Sprintf("session|i=%d", i) }, func(i int, k *fw.K) { c14Case(c, k, i) })
 }
